@@ -239,8 +239,15 @@ def runLoop (E : Env τ ω) : Nat → St τ ω → Ending × St τ ω
     | .next s' => runLoop E n s'
     | .done e s' => (e, s')
 
-/-- the `finally:` clause: `for i in range(len(ready))`: pop, `send(ABORT)`, only `StopIteration`
-is caught. -/
+/-- `isinstance(x, Exception)`: caught by `except Exception:`; `KeyboardInterrupt`, `SystemExit` and
+other bare `BaseException`s are not -/
+def Exc.isException : Exc → Bool
+  | .exception _ | .indexError | .unboundLocalError => true
+  | .keyboardInterrupt | .systemExit | .baseException _ => false
+
+/-- the loop of the `finally:` clause (as repaired by fixes/D03a-…patch): `for i in range(len(ready))`:
+pop, `send(ABORT)`; `StopIteration` is caught, an `Exception` is caught and remembered (the sweep goes
+on), any other `BaseException` ends the sweep at once and is the result here. -/
 def finalLoop (E : Env τ ω) : Nat → St τ ω → Option Exc × St τ ω
   | 0, s => (none, s)
   | n+1, s =>
@@ -252,10 +259,39 @@ def finalLoop (E : Env τ ω) : Nat → St τ ω → Option Exc × St τ ω
                             stamp := s.storeStamp, result := r.1, periodAfter := E.period r.2 e.id }
       let s' := { s with ready := rest, world := r.2, events := s.events ++ [ev] }
       match r.1 with
-      | .raised x => (some x, s')
+      | .raised x => if x.isException then finalLoop E n s' else (some x, s')
       | _ => finalLoop E n s'
 
-def finalize (E : Env τ ω) (s : St τ ω) : Option Exc × St τ ω := finalLoop E s.ready.length s
+/-- `failure`: the first `Exception` caught while aborting -/
+def firstFailure (evs : List (Event τ)) : Option Exc :=
+  evs.findSome? fun ev =>
+    match ev.phase, ev.result with
+    | .final, .raised x => if x.isException then some x else none
+    | _, _ => none
+
+/-- the whole `finally:` clause: the sweep, `ready.clear()` in its own `finally:`, then
+`if failure is not None: raise failure` unless a `BaseException` is already on its way out -/
+def finalize (E : Env τ ω) (s : St τ ω) : Option Exc × St τ ω :=
+  let r := finalLoop E s.ready.length s
+  ((match r.1 with | some x => some x | none => firstFailure r.2.events), { r.2 with ready := [] })
+
+/-- the `finally:` clause before the repair (finding D03a): only `StopIteration` is caught, the first
+exception of any kind ends the sweep, the deque is not cleared -/
+def finalLoopOld (E : Env τ ω) : Nat → St τ ω → Option Exc × St τ ω
+  | 0, s => (none, s)
+  | n+1, s =>
+    match s.ready with
+    | [] => (some .indexError, s)
+    | e :: rest =>
+      let r := E.send .final e.id .abort s.storeStamp s.world
+      let ev : Event τ := { phase := .final, tick := s.tick, id := e.id, control := .abort,
+                            stamp := s.storeStamp, result := r.1, periodAfter := E.period r.2 e.id }
+      let s' := { s with ready := rest, world := r.2, events := s.events ++ [ev] }
+      match r.1 with
+      | .raised x => (some x, s')
+      | _ => finalLoopOld E n s'
+
+def finalizeOld (E : Env τ ω) (s : St τ ω) : Option Exc × St τ ω := finalLoopOld E s.ready.length s
 
 /-- what the caller of `Skedder.run` sees -/
 inductive Outcome
@@ -277,9 +313,30 @@ def run (E : Env τ ω) (fuel : Nat) (s : St τ ω) : Outcome × St τ ω :=
       | .raised x => (.raised x, s'')
       | e => (.returned e, s'')
 
-/-- **Region of finding D03a.** A send of the abort sweep raised (so the sweep stopped there). -/
+/-- The prologue of a later `run()` on the same `Skedder`. What survives a `run()` is `self.stamp`,
+`self.period`, the deques `self.ready` and `self.aborted` and the taskers (world `w`, possibly changed
+between the runs, e.g. by `tasker.remake()`); the local `status` is unbound again, the stores are
+stamped with `self.stamp`, and every taskable is appended to `ready` once more. -/
+def restart (E : Env τ ω) (houses : List House) (s : St τ ω) (w : ω) : St τ ω :=
+  (houses.flatMap House.taskables).foldl (addReadyTask E)
+    { s with storeStamp := s.stamp, world := w, status := none, tick := 0, events := [] }
+
+/-- **Region of finding D03b.** A `BaseException` that is not an `Exception` (a second Ctrl-C, `SystemExit`)
+came out of a send of the abort sweep: the sweep stops there. -/
 def sweepRaised (E : Env τ ω) (fuel : Nat) (s : St τ ω) : Bool :=
-  (finalize E (runLoop E fuel s).2).1.isSome
+  (finalLoop E (runLoop E fuel s).2.ready.length (runLoop E fuel s).2).1.isSome
+
+/-- `Skedder.run` before the repair of D03a -/
+def runOld (E : Env τ ω) (fuel : Nat) (s : St τ ω) : Outcome × St τ ω :=
+  match runLoop E fuel s with
+  | (.fuel, s') => (.outOfFuel, s')
+  | (e, s') =>
+    match finalizeOld E s' with
+    | (some x, s'') => (.raised x, s'')
+    | (none, s'') =>
+      match e with
+      | .raised x => (.raised x, s'')
+      | e => (.returned e, s'')
 
 /-! ## the concrete environment of the driver: scripted taskers around the base runner table -/
 
@@ -409,6 +466,24 @@ def Config.wellFormed (c : Config τ) : Bool :=
 def Config.run (c : Config τ) (fuel : Nat) : Outcome × St τ (World τ) :=
   Ioflo.Sked.run ScriptEnv fuel
     (start ScriptEnv c.period c.stamp c.houses (c.taskers.map fun t => { t with period := TimeLike.abs t.period }))
+
+/-- `Tasker.remake()`: a fresh generator advanced to its first yield (status STOPPED, desire STOP, the
+script starts over); the period is kept -/
+def remakeTk (t : Tk τ) : Tk τ :=
+  { t with alive := true, status := .stopped, desire := .stop, done := true, nsend := 0 }
+
+/-- later `run()`s on the same scheduler: before each, the listed taskers are re-made -/
+def Config.reruns (c : Config τ) (fuel : Nat) : List (List Nat) → St τ (World τ) → List (Outcome × St τ (World τ))
+  | [], _ => []
+  | ids :: rest, s =>
+    let w := ids.foldl (fun w i => w.modify i remakeTk) s.world
+    let r := Ioflo.Sked.run ScriptEnv fuel (restart ScriptEnv c.houses s w)
+    r :: Config.reruns c fuel rest r.2
+
+/-- the first `run()` and the later ones -/
+def Config.runAll (c : Config τ) (fuel : Nat) (again : List (List Nat)) : List (Outcome × St τ (World τ)) :=
+  let r := c.run fuel
+  r :: c.reruns fuel again r.2
 
 /-- what of an event is independent of the time type: pass number, tasker, control, result -/
 def Event.shape {τ : Type} (e : Event τ) : Phase × Nat × Nat × Control × Sent :=
